@@ -129,10 +129,9 @@ Section Conv.
 
   Record genv := {
     ge_cache : cache; ge_g : ogroup; ge_bbox : option qrect;
-    ge_clip : option string; ge_mask : option string; ge_filters : list string
+    ge_clip : option string; ge_mask : option string; ge_filters : list string;
+    ge_pre : option (list string)      (* `empty_filters`: filters resolved early for an element without content *)
   }.
-  Definition ge_with_cache (x : genv) (c : cache) : genv :=
-    {| ge_cache := c; ge_g := ge_g x; ge_bbox := ge_bbox x; ge_clip := ge_clip x; ge_mask := ge_mask x; ge_filters := ge_filters x |}.
 
   Section Group.
     Variables (tg : option tag) (a : attrs) (st : state) (force : bool) (parent : ogroup).
@@ -164,6 +163,13 @@ Section Conv.
          og_ch := og_ch (ge_g x) |}.
 
     Definition gresult := (cache * ogroup * option ogroup)%type.
+    (* converter::convert_group_filters: None = the element must not be rendered at all *)
+    Definition group_filters (x : genv) : option (list string) * cache :=
+      if st_in_clip st then (Some [], ge_cache x) else
+      match a_filter a with
+      | FA_Absent | FA_NoneValue => (Some [], ge_cache x)
+      | FA_Value _ => res_filter a st (ge_bbox x) (ge_cache x)
+      end.
     (* one step of convert_group after `collect_children`: continue with a new environment or return *)
     Definition group_step_run (s : group_step) (x : genv) : genv + gresult :=
       match s with
@@ -171,7 +177,7 @@ Section Conv.
           if is_empty x && negb (has_filter_attr a) then inr (ge_cache x, parent, None) else inl x
       | GS_ObjectBBox =>
           inl {| ge_cache := ge_cache x; ge_g := ge_g x; ge_bbox := obj_bbox (ge_g x);
-                 ge_clip := ge_clip x; ge_mask := ge_mask x; ge_filters := ge_filters x |}
+                 ge_clip := ge_clip x; ge_mask := ge_mask x; ge_filters := ge_filters x; ge_pre := ge_pre x |}
       | GS_Clip =>
           match a_clip a with
           | None => inl x
@@ -179,7 +185,7 @@ Section Conv.
               match res_clip link st (ge_bbox x) (ge_cache x) with
               | (None, c') => inr (c', parent, None)
               | (Some r, c') => inl {| ge_cache := c'; ge_g := ge_g x; ge_bbox := ge_bbox x;
-                                       ge_clip := Some r; ge_mask := ge_mask x; ge_filters := ge_filters x |}
+                                       ge_clip := Some r; ge_mask := ge_mask x; ge_filters := ge_filters x; ge_pre := ge_pre x |}
               end
           end
       | GS_Mask =>
@@ -190,20 +196,29 @@ Section Conv.
               match res_mask link st (ge_bbox x) (ge_cache x) with
               | (None, c') => inr (c', parent, None)
               | (Some r, c') => inl {| ge_cache := c'; ge_g := ge_g x; ge_bbox := ge_bbox x;
-                                       ge_clip := ge_clip x; ge_mask := Some r; ge_filters := ge_filters x |}
+                                       ge_clip := ge_clip x; ge_mask := Some r; ge_filters := ge_filters x; ge_pre := ge_pre x |}
               end
           end
       | GS_Filters =>
-          if st_in_clip st then inl x else
-          match a_filter a with
-          | FA_Absent | FA_NoneValue => inl x
-          | FA_Value _ =>
-              match res_filter a st (ge_bbox x) (ge_cache x) with
+          match ge_pre x with
+          | Some f => inl {| ge_cache := ge_cache x; ge_g := ge_g x; ge_bbox := ge_bbox x;
+                             ge_clip := ge_clip x; ge_mask := ge_mask x; ge_filters := f; ge_pre := ge_pre x |}
+          | None =>
+              match group_filters x with
               | (None, c') => inr (c', parent, None)
               | (Some f, c') => inl {| ge_cache := c'; ge_g := ge_g x; ge_bbox := ge_bbox x;
-                                       ge_clip := ge_clip x; ge_mask := ge_mask x; ge_filters := f |}
+                                       ge_clip := ge_clip x; ge_mask := ge_mask x; ge_filters := f; ge_pre := ge_pre x |}
               end
           end
+      | GS_EmptyFiltersFirst =>
+          if is_empty x then
+            match group_filters x with
+            | (None, c') => inr (c', parent, None)
+            | (Some [], c') => inr (c', parent, None)
+            | (Some f, c') => inl {| ge_cache := c'; ge_g := ge_g x; ge_bbox := ge_bbox x;
+                                     ge_clip := ge_clip x; ge_mask := ge_mask x; ge_filters := ge_filters x; ge_pre := Some f |}
+            end
+          else inl x
       | GS_NotRequired =>
           if required x then inl x else inr (ge_cache x, og_append parent (og_ch (ge_g x)), None)
       | GS_EmptyNoFilters =>
@@ -225,7 +240,7 @@ Section Conv.
                                gp_isolate := a_isolate a; gp_clip := None; gp_mask := None; gp_filters := [] |};
                    og_ch := [] |} in
       let '(c1, g1) := collect c g0 in
-      group_run group_steps {| ge_cache := c1; ge_g := g1; ge_bbox := None; ge_clip := None; ge_mask := None; ge_filters := [] |}.
+      group_run group_steps {| ge_cache := c1; ge_g := g1; ge_bbox := None; ge_clip := None; ge_mask := None; ge_filters := []; ge_pre := None |}.
   End Group.
 
   Definition push_group (r : gresult) : cache * ogroup :=
